@@ -107,10 +107,17 @@ Start(la, lb, tm, p) == StartD(la, lb, tm, p, ZeroDist, ZeroDist)
 
 Init ==
   \/ /\ Law = "rescale" /\ Len(SecSeq) = 1
-     /\ \E g \in BaseLedgers, x \in Days, k \in SplitKinds, tm \in Timings :
+     /\ \E g \in BaseLedgers, x \in Days, k \in SplitKinds, tm \in Timings,
+           ev \in {[d \in Days |-> 0]} \cup {[d \in Days |-> IF d = e THEN kk ELSE 0] : e \in Days, kk \in EventKinds} :
           LET s == SecSeq[1]
-              l == [t \in Secs |-> SecLedger(t, g, [d \in Days |-> IF d = x THEN k ELSE 0])]
-          IN Start(l, Rescale(l, tm, s, x), tm, [law |-> Law, sec |-> s, x |-> x, f |-> l[s][x].split])
+              l == [t \in Secs |-> SecLedgerEv(t, g, [d \in Days |-> IF d = x THEN k ELSE 0], ev)]
+              lb == Rescale(l, tm, s, x)
+              \* the canonical apportionment looks only at which days have purchases and at whether shares are
+              \* held, both of which the rewrite preserves, so the two runs carry the same adjustment
+              dd == FirstLotDist(lb)
+          IN /\ (\E d \in Days : ev[d] # 0) => tm = "end"
+             /\ DistNonNeg(lb, dd)
+             /\ StartD(l, lb, tm, [law |-> Law, sec |-> s, x |-> x, f |-> l[s][x].split], dd, dd)
   \* two securities: only the second is split and rewritten; the first must not notice
   \/ /\ Law = "rescale" /\ Len(SecSeq) = 2
      /\ \E g1 \in BaseLedgers, g2 \in BaseLedgers, x \in Days, k \in SplitKinds, tm \in Timings :
